@@ -4,6 +4,8 @@ def stages(tier):
     return [
         {"name": "unit", "cmd": "unit", "args": ["-prop", "C04"], "check": "Check.Freshness.check_fresh_c04",
          "timeout": 300, "timeout_thorough": 1800},
+        {"name": "e2e", "cmd": "fresh", "args": ["-prop", "C04"], "check": "Check.FreshHistory.check_hist_c04",
+         "timeout": 300, "timeout_thorough": 1800},
     ]
 
 TRUSTED = []
